@@ -351,5 +351,50 @@ package variants
 //@ func RegionsFromGFF deterministic
 //@   modifies everything
 
+//@ # C11/C18/C19: the orchestration of `variants` in spawns mode (model and assumptions: see closest.Closest; the type
+//@ # switch on the input's dynamic type is a free choice). Proved: every worker is started with the reference record and
+//@ # with the offset tables GetMSAOffsets computed from THAT record's sequence (the call-site fact getVariants' contract
+//@ # relies on, so far only read), with the regions of the annotation and on the right channels; the writer the
+//@ # --aggregate flag selects gets the window, --append-snps, the threshold and the reference's ID unchanged; an error
+//@ # received from any stage is returned; a nil return means none was received and all stages signalled completion.
 //@ func Variants spawns
 //@   modifies everything
+//@   after assign:cMSADone#1: assume [env.errors] forallint(k, envat(cErr, k) != nil)
+//@   ghost gErrSeen bool = false
+//@   ghost gRef fastaio.EncodedFastaRecord = fastaio.EncodedFastaRecord{}
+//@   ghost gR2M []int = nil
+//@   ghost gM2R []int = nil
+//@   after call:GetMSAOffsets#1: do gRef = ref; gR2M = refToMSA; gM2R = MSAToRef
+//@   after call:GetMSAOffsets#2: do gRef = ref; gR2M = refToMSA; gM2R = MSAToRef
+//@   after call:GetMSAOffsets#1: assert [c11.offsets.of.reference] sameslice(arg(0), ref.Seq)
+//@   after call:GetMSAOffsets#2: assert [c11.offsets.of.reference] sameslice(arg(0), ref.Seq)
+//@   before call:getVariants#1: assert [c11.worker] arg(0) == gRef && sameslice(arg(1), cdsregions) && sameslice(arg(2), intregions) && sameslice(arg(3), gR2M) && sameslice(arg(4), gM2R) && arg(5) == cMSA && arg(6) == cVariants && arg(7) == cErr
+//@   before call:ReadEncodeAlignment#1: assert [c11.reader] arg(0) == msaIn && arg(1) == false && arg(2) == cMSA && arg(3) == cErr && arg(4) == cMSADone
+//@   before call:AggregateWriteVariants#1: assert [c13.writer] aggregate && arg(0) == out && arg(1) == old(start) && arg(2) == old(end) && arg(3) == old(appendSNP) && (arg(4) == old(threshold) || (isnan(arg(4)) && isnan(old(threshold)))) && arg(5) == gRef.ID && arg(6) == cVariants && arg(7) == cWriteDone && arg(8) == cErr
+//@   before call:WriteVariants#1: assert [c11.writer] !aggregate && arg(0) == out && arg(1) == old(start) && arg(2) == old(end) && arg(3) == firstmissing && arg(4) == old(appendSNP) && arg(5) == gRef.ID && arg(6) == cVariants && arg(7) == cWriteDone && arg(8) == cErr
+//@   before return#6: do gErrSeen = true
+//@   before return#6: assert [c18.error.first] len(recvd(cErr)) == 1 && err == recvd(cErr)[0]
+//@   loop 1:
+//@     invariant !gErrSeen && len(recvd(cErr)) == 0 && len(recvd(cMSADone)) == 0
+//@   loop 2:
+//@     invariant !gErrSeen && len(recvd(cErr)) == 0 && len(recvd(cMSADone)) == 0
+//@   loop 3:
+//@     invariant !gErrSeen && len(recvd(cErr)) == 0 && len(recvd(cMSADone)) == 0
+//@   loop 4:
+//@     invariant !gErrSeen && len(recvd(cErr)) == 0 && len(recvd(cMSADone)) == 0 && gRef == ref && sameslice(gR2M, refToMSA) && sameslice(gM2R, MSAToRef)
+//@   loop 5:
+//@     invariant !gErrSeen && len(recvd(cErr)) == 0 && len(recvd(cMSADone)) == 0 && len(recvd(cVariantsDone)) == 0 && len(recvd(cWriteDone)) == 0
+//@   loop 6:
+//@     invariant !gErrSeen && len(recvd(cErr)) == 0 && 0 <= n && n <= 1 && len(recvd(cMSADone)) + n == 1 && len(recvd(cVariantsDone)) == 0 && len(recvd(cWriteDone)) == 0
+//@   loop 7:
+//@     invariant !gErrSeen && len(recvd(cErr)) == 0 && len(recvd(cMSADone)) == 1 && 0 <= n && n <= 1 && len(recvd(cVariantsDone)) + n == 1 && len(recvd(cWriteDone)) == 0
+//@   loop 8:
+//@     invariant !gErrSeen && len(recvd(cErr)) == 0 && len(recvd(cMSADone)) == 1 && len(recvd(cVariantsDone)) == 1 && 0 <= n && n <= 1 && len(recvd(cWriteDone)) + n == 1
+//@   before return#18: do gErrSeen = true
+//@   before return#19: do gErrSeen = true
+//@   before return#20: do gErrSeen = true
+//@   before return#18: assert [c18.error.first] len(recvd(cErr)) == 1 && err == recvd(cErr)[0]
+//@   before return#19: assert [c18.error.first] len(recvd(cErr)) == 1 && err == recvd(cErr)[0]
+//@   before return#20: assert [c18.error.first] len(recvd(cErr)) == 1 && err == recvd(cErr)[0]
+//@   before return#21: assert [c18.nil.means.clean] len(recvd(cErr)) == 0 && len(recvd(cMSADone)) == 1 && len(recvd(cVariantsDone)) == 1 && len(recvd(cWriteDone)) == 1
+//@   ensures [c18.error.returned] implies(gErrSeen, result != nil)
